@@ -150,6 +150,41 @@ CHECKS['C19'] = {
     'technique': 'zero/non-zero path analysis, loop-idiom recognition, lockset, def-use in swap/move',
 }
 
+CHECKS['C01'] = {
+    'text': 'The pointer programs extracted from append/prepend/insert/remove/ownsHandle (with their helpers) are evaluated on every alias '
+            'configuration of short lists (length 0..4 quick / 0..6 thorough; operand at every position; removed-but-alive, expired and foreign handles; '
+            '>1000 configurations) against the sequence-edit specification, list well-formedness, the result of remove and the inertness of removed handles; '
+            'traversal idiom (cursor from head, one advance per iteration, visit iff live && generation <= captured, loop left only at the end or after the '
+            'visitor ran); the per-callback code consumes no parameter; helpers (empty, forEach*, doForEachInvoke, eventutil) describe the same content.',
+    'note': COMMON_NOTE + 'The shape evaluation interprets the extracted CFG/expression facts, not compiled code; it is bounded (small scope + locality: the routines reach at most one link beyond their operands and the ends). Not decided: composition over arbitrary histories, argument values.',
+    'technique': 'local shape analysis: extracted pointer program evaluated over all alias configurations of small heaps; traversal-idiom and loop-exit rules over clang CFG',
+}
+CHECKS['C08'] = {
+    'text': 'Slot EMPTY/FULL protocol by abstract interpretation over all processing functions (every clear on a FULL slot exactly once, no set on FULL, only '
+            'EMPTY slots recycled), slot destructor/clear/empty/set shapes and commonDtor<T> type identity, owner types not copyable (class facts), node-cycle '
+            'breaking: destructor and move assignment run doFreeAllNodes first, doFreeAllNodes walks from head cutting links on every node, copy constructor '
+            'delegates; raw ownership of LargeData (single new, matching deleter, delete iff owned, move leaves source empty) and AnyData (free iff table, move via table).',
+    'note': COMMON_NOTE + 'Not decided: leaks through user types; when exactly removed callbacks are released beyond the ownership shape.',
+    'technique': 'typestate abstract interpretation (slots), dominance/post-dominance, loop-idiom recognition, class special-member facts',
+}
+CHECKS['C10'] = {
+    'text': 'No constructor of a container class leaves a scalar member indeterminate (recursive default-initialisation analysis per -std); swap, move assignment '
+            'and move construction cover every state field of the list / dispatchers / heterogeneous list; dispatcher copy assignment replaces the whole map; '
+            'cloneFrom links only freshly made nodes built from the source callback and one generation drawn through getNextCounter before the loop and does not '
+            'touch currentCounter; heterogeneous copy stores only doClone() results; self copy-assignment guarded; queue copies default-construct their event lists; '
+            'static_assert witnesses for copyability / noexcept moves and swaps.',
+    'note': COMMON_NOTE + 'Not decided: behavioural equivalence of the result with a freshly built object beyond state initialisation and C02.',
+    'technique': 'R-INIT in the extractor, field-completeness tables, taint/def-use over cloneFrom, static_assert witnesses',
+}
+CHECKS['C17'] = {
+    'text': 'Over a witness family of payload sizes 1..232 bytes x capacities 8/16/24/64: every placement-new fits the buffer (layout facts); the inline constructor '
+            'is instantiated exactly when sizeof(T) <= max(capacity, sizeof(LargeData)); the stored function table is that of exactly the constructed type; '
+            'isLargerData/isType/getAddress/accessors derive from those tables and from getAddress; function table entries destroy / move-construct exactly T; '
+            'lifetime shape of AnyData and LargeData.',
+    'note': COMMON_NOTE + 'Not decided: equality of read-back values, address stability, alignment of over-aligned payloads.',
+    'technique': 'layout facts + template-argument identity over the resolved AST, formula extraction, dominance',
+}
+
 NOT_APPLICABLE = {
 }
 for _i in range(1, 21):
